@@ -3,6 +3,7 @@ pub mod child;
 pub mod c05;
 pub mod c07;
 pub mod c10;
+pub mod c15;
 pub mod c16;
 pub mod c17;
 
@@ -11,6 +12,7 @@ pub fn run(prop: &str, ctx: &Ctx) -> Option<Report> {
         "C05" => c05::run(ctx),
         "C07" => c07::run(ctx),
         "C10" => c10::run(ctx),
+        "C15" => c15::run(ctx),
         "C16" => c16::run(ctx),
         "C17" => c17::run(ctx),
         _ => return None,
